@@ -39,6 +39,83 @@ static void pc_consumer(int self, const Op&) {
   }
 }
 
+// ---------------------------------------------------------------- C08(c): remotely freed blocks are reusable by the owner (keeper rounds)
+// The owner (thread 0) allocates from its own heap and posts blocks to helper threads that free them; "keeper" blocks pin pages. At a
+// quiescent point (nothing posted, every helper idle) the reuse probe reads, from the heap's own area report, how many more blocks fit
+// in the pages the heap already has, allocates exactly that many, and requires that the heap did not need a fresh page for them.
+extern "C" void vf_dump_heap(mi_heap_t*) __attribute__((weak));   // tools/dbg_dump.c (manual triage only)
+struct KRState { std::deque<int> q; bool stop = false; bool posted[NSLOT] = {}; };
+static KRState KR;
+struct AreaInfo { size_t areas = 0, used = 0, room = 0; const uint8_t* ref = nullptr; size_t ref_used = 0, ref_cap = 0; size_t bsize = 0; bool uniform = true; };
+static bool kr_area_cb(const mi_heap_t*, const mi_heap_area_t* a, void* block, size_t, void* arg) {
+  if (block) return true; AreaInfo* I = (AreaInfo*)arg; I->areas++; I->used += a->used; size_t cap = a->full_block_size ? a->reserved / a->full_block_size : 0; if (cap > a->used) I->room += cap - a->used;
+  if (I->bsize == 0) I->bsize = a->full_block_size; else if (I->bsize != a->full_block_size) I->uniform = false;
+  if (I->ref && I->ref >= (const uint8_t*)a->blocks && I->ref < (const uint8_t*)a->blocks + a->reserved) { I->ref_used = a->used; I->ref_cap = cap; }
+  return true;
+}
+static mi_heap_t* kr_heap(int self, const Op& op) { int h = (int)op.num("h", 1); return (h > 0 && h < 4 && M.heap_alive[self][h]) ? M.heaps[self][h] : nullptr; }
+static bool kr_quiet(int self) { if (!KR.q.empty()) return false; for (int t = 0; t < S.nthreads; t++) if (t != self && S.vt[t].state != 2 && !(S.vt[t].waiting && !(S.vt[t].can_go && S.vt[t].can_go()))) return false; return true; }
+static bool kr_sync(int self) {   // wait until nothing is posted and every helper is idle
+  S.vt[self].waiting = true; S.vt[self].can_go = [self]() { return kr_quiet(self); };
+  while (!kr_quiet(self)) { if (!others_alive(self)) { S.vt[self].waiting = false; return false; } vt_wait_yield(); }
+  S.vt[self].waiting = false; return true;
+}
+static void kr_serve(int self) {
+  for (;;) {
+    S.vt[self].waiting = true; S.vt[self].can_go = []() { return !KR.q.empty() || KR.stop; };
+    while (KR.q.empty()) { if (KR.stop || !others_alive(self)) { S.vt[self].waiting = false; return; } vt_wait_yield(); }
+    S.vt[self].waiting = false;
+    int s = KR.q.front(); KR.q.pop_front(); Slot& b = M.slots[s]; KR.posted[s] = false; if (!b.live) continue;
+    model_check(s, "helper"); uint8_t* p = b.p; flag(F_REMOTE_FREE); model_remove(s);
+    call_begin(); mi_free(p); call_end();
+  }
+}
+static void kr_post(int self, const Op& op) {
+  mi_heap_t* hp = kr_heap(self, op); int lo, hi; if (op.has("s")) { lo = (int)op.num("s"); hi = lo + 1; } else { lo = (int)op.num("lo", 0); hi = (int)op.num("hi", NSLOT); }
+  int keep = op.has("keep") ? (int)op.num("keep") : -1, keep2 = op.has("keep2") ? (int)op.num("keep2") : -1; if (lo < 0) lo = 0; if (hi > NSLOT) hi = NSLOT;
+  bool looked = false;
+  for (int s = lo; s < hi; s++) { Slot& b = M.slots[s]; if (!b.live || b.by != self || KR.posted[s] || s == keep || s == keep2) continue;
+    if (!looked && hp) { looked = true; AreaInfo I; I.ref = b.p; mi_heap_visit_blocks(hp, false, &kr_area_cb, &I); if (I.ref_cap > 0 && I.ref_used >= I.ref_cap) flag(F_REMOTE_FULL); }
+    KR.posted[s] = true; KR.q.push_back(s); }
+}
+static void kr_fill(int self, const Op& op, int opi) {
+  mi_heap_t* hp = kr_heap(self, op); if (!hp) return; int ref = (int)op.num("ref"); if (ref < 0 || ref >= NSLOT || !M.slots[ref].live) return;
+  size_t n = op.num("n", 1000), max = op.num("max", 80), extra = op.num("extra", 0), count = 0; int s = (int)op.num("base", 0); if (s < 0) s = 0;
+  for (;;) {
+    AreaInfo I; I.ref = M.slots[ref].p; mi_heap_visit_blocks(hp, false, &kr_area_cb, &I); if (I.ref_cap == 0) break;
+    if (I.ref_used >= I.ref_cap) { if (extra == 0) break; extra--; }
+    if (count >= max) break;
+    while (s < NSLOT && M.slots[s].live) s++; if (s >= NSLOT) break;
+    call_begin(); void* p = mi_heap_malloc(hp, n); call_end(); if (!p) fail_now("null", "thread %d op#%d malloc(%zu) returned NULL", self, opi, n);
+    model_add(s, (uint8_t*)launder(p), n, self, "FILL"); count++;
+  }
+}
+static void kr_probe(int self, const Op& op, int opi) {
+  mi_heap_t* hp = kr_heap(self, op); if (!hp) return; size_t n = op.num("n", 1000); if (n < 1) n = 1;
+  if (!kr_sync(self)) return;
+  // the owner collects first: blocks freed into a full page wait on the heap's delayed list, which an allocating owner only drains every
+  // 100 generic allocations; a collect drains it at once (without it, taking a fresh page in the meantime is allowed behaviour)
+  call_begin(); mi_heap_collect(hp, false); call_end();
+  AreaInfo I0; mi_heap_visit_blocks(hp, false, &kr_area_cb, &I0); if (I0.room == 0 || I0.room > 20000 || !I0.uniform) return;   // (one size class per heap, or no verdict)
+  if (vf_dump_heap && getenv("VF_DUMP_AT_PROBE")) vf_dump_heap(hp);
+  std::vector<uint8_t*> got; got.reserve(I0.room);
+  for (size_t i = 0; i < I0.room; i++) { call_begin(); uint8_t* p = (uint8_t*)launder(mi_heap_malloc(hp, n)); call_end(); if (!p) fail_now("null", "thread %d op#%d probe malloc(%zu) returned NULL", self, opi, n); p[0] = 0x5A; p[n - 1] = 0xA5; got.push_back(p); }
+  AreaInfo I1; mi_heap_visit_blocks(hp, false, &kr_area_cb, &I1);
+  if (!I1.uniform || I1.bsize != I0.bsize) { for (uint8_t* p : got) { call_begin(); mi_free(p); call_end(); } return; }   // the probe size belongs to another size class: no verdict
+  flag(F_REUSE_PROBE);
+  if (I1.areas > I0.areas && vf_dump_heap) vf_dump_heap(hp);
+  if (I1.areas > I0.areas) fail_now("not-reused", "thread %d op#%d: no free is in flight and the heap reports room for %zu more blocks of %zu bytes in its %zu pages (%zu blocks in use), yet allocating %zu such blocks made it take %zu fresh page(s): blocks freed by other threads did not become reusable by the owner", self, opi, I0.room, n, I0.areas, I0.used, I0.room, I1.areas - I0.areas);
+  for (uint8_t* p : got) { if (p[0] != 0x5A || p[n - 1] != 0xA5) fail_now("contents", "probe block %p changed", p); call_begin(); mi_free(p); call_end(); }
+}
+static void kr_quiesce_heap(int self, const Op& op) {
+  mi_heap_t* hp = kr_heap(self, op); if (!hp) return; if (!kr_sync(self)) return;
+  for (auto& kv : M.live) if (M.slots[kv.second].by == self) return;
+  call_begin(); mi_heap_collect(hp, true); call_end();
+  AreaInfo I; mi_heap_visit_blocks(hp, false, &kr_area_cb, &I);
+  if (I.used != 0 || I.areas != 0) fail_now("lost-blocks", "thread %d: all blocks of its heap were freed (most by other threads) and the owner force-collected it, but the heap still reports %zu used block(s) in %zu page(s)", self, I.used, I.areas);
+  flag(F_QUIESCENT_EMPTY);
+}
+
 // ---------------------------------------------------------------- C14(a): raw bitmap scripts
 extern "C" bool _mi_bitmap_try_find_from_claim_across(size_t* bitmap, size_t bitmap_fields, size_t start_field_idx, size_t count, size_t* bitmap_idx);
 extern "C" bool _mi_bitmap_unclaim_across(size_t* bitmap, size_t bitmap_fields, size_t count, size_t bitmap_idx);
@@ -110,12 +187,14 @@ static void special_setup(const Case& c) {
   for (auto& op : c) { if (op.name == "BM") bm_setup(op); else if (op.name == "AR") ar_setup(op); else if (op.name == "cfg" && op.has("noquiesce")) g_global_quiescence = false; }
 }
 static void special_final() { bm_final(); if (AR.used) { for (int t = 0; t < MAXT; t++) AR.heap[t] = nullptr; ar_final(); g_global_quiescence = false; } }
-static void special_op(int self, const Op& op, int) {
+static void special_op(int self, const Op& op, int opi) {
   const std::string& nm = op.name;
   if (nm == "PCP") pc_producer(self, op); else if (nm == "PCC") pc_consumer(self, op);
   else if (nm == "BC") bm_claim(self, op); else if (nm == "BR") bm_release(self, op);
   else if (nm == "AA") ar_alloc(self, op);
   else if (nm == "T") vf_clock_advance((long)op.num("ms", 1));
+  else if (nm == "SERVE") kr_serve(self); else if (nm == "POST") kr_post(self, op); else if (nm == "FILL") kr_fill(self, op, opi); else if (nm == "SY") kr_sync(self);
+  else if (nm == "RP") kr_probe(self, op, opi); else if (nm == "QH") kr_quiesce_heap(self, op); else if (nm == "STOP") KR.stop = true;
 }
 
 // ---------------------------------------------------------------- generators for the special programs
@@ -126,6 +205,31 @@ static Case gen_pc_program(Chooser& ch) {
   c.push_back(Op("PCP").u("t", 0).u("rounds", rounds).u("live", ch.of(lives)).u("n", ch.of(sizes)));
   c.push_back(Op("PCC").u("t", 1));
   c.push_back(Op("J").u("t", 0)); c.push_back(Op("Q").u("t", 0));
+  for (size_t i = 0; i < c.size(); i++) c[i].u("i", i);
+  return c;
+}
+static Case gen_keeper_program(Chooser& ch) {
+  Case c; if (ch.chance(1, 4)) c.push_back(Op("opt").s("name", "generic_collect").u("v", ch.chance(1, 2) ? 20 : 1000000));
+  static const std::vector<size_t> sizes = { 1000, 1000, 2000, 3000, 4000, 8000, 12000, 20000, 40000, 60000, 100000 };
+  size_t n = ch.of(sizes); int helpers = (int)ch.range(1, 2); const int W = 96, regions = NSLOT / W; int R = (int)ch.range(3, 12), K = (int)ch.range(1, (uint64_t)std::min(R, regions - 1));
+  c.push_back(Op("HN").u("t", 0).u("h", 1));
+  for (int t = 1; t <= helpers; t++) c.push_back(Op("SERVE").u("t", (uint64_t)t));
+  auto O = [&](Op op) { op.u("t", 0); c.push_back(op); };
+  for (int r = 0; r < R; r++) {
+    int base = (r % regions) * W; int a0 = (int)ch.range(2, 8); int keeper = base + (int)ch.pick((size_t)a0);
+    for (int i = 0; i < a0; i++) O(Op("A").u("s", (uint64_t)(base + i)).u("n", n).u("h", 1));
+    int ne = (int)ch.pick(4); if (ne == 3) ne = 1;
+    for (int e = 0; e < ne; e++) { int s = base + (int)ch.pick((size_t)a0); if (s != keeper) O(Op("POST").u("s", (uint64_t)s).u("h", 1)); }
+    if (ne > 0 && ch.chance(3, 4)) O(Op("SY"));
+    if (ch.chance(1, 3)) O(Op("HC").u("h", 1).u("force", 0));
+    O(Op("FILL").u("ref", (uint64_t)keeper).u("base", (uint64_t)base).u("max", (uint64_t)(W - 12)).u("extra", ch.pick(4)).u("n", n).u("h", 1));
+    Op post("POST"); post.u("lo", (uint64_t)base).u("hi", (uint64_t)(base + W)).u("keep", (uint64_t)keeper).u("h", 1); if (ch.chance(1, 4)) post.u("keep2", (uint64_t)(base + (int)ch.pick((size_t)W - 12))); O(post);
+    if (r >= K) { int ob = ((r - K) % regions) * W; O(Op("POST").u("lo", (uint64_t)ob).u("hi", (uint64_t)(ob + W)).u("h", 1)); }
+    if (ch.chance(3, 4)) O(Op("SY"));
+    if (ch.chance(1, 3)) O(Op("HC").u("h", 1).u("force", ch.chance(1, 8)));
+    if (ch.chance(1, 2) || r == R - 1) O(Op("RP").u("h", 1).u("n", n));
+  }
+  O(Op("POST").u("lo", 0).u("hi", (uint64_t)NSLOT).u("h", 1)); O(Op("SY")); O(Op("QH").u("h", 1)); O(Op("STOP")); O(Op("J"));
   for (size_t i = 0; i < c.size(); i++) c[i].u("i", i);
   return c;
 }
